@@ -1010,6 +1010,41 @@ func (c *Ctx) optSeq(f *ssa.Function, v ssa.Value, d int) []optAlt {
 		if len(cps) == 0 {
 			return nil
 		}
+		// the list is exactly as long as what is copied into it: its length is the sum of len(source) over the copied
+		// sources, each once (a longer list keeps nil options in its tail, which the applier refuses; cap() is not len())
+		{
+			var leaves []ssa.Value
+			var walk func(v ssa.Value)
+			walk = func(v ssa.Value) {
+				if b, ok := v.(*ssa.BinOp); ok && b.Op == token.ADD {
+					walk(b.X)
+					walk(b.Y)
+					return
+				}
+				leaves = append(leaves, v)
+			}
+			walk(x.Len)
+			want := map[string]int{}
+			for _, cpy := range cps {
+				want["builtin.len("+core.Path(cpy.src)+")"]++
+			}
+			exact := len(leaves) == len(cps)
+			for _, lf := range leaves {
+				cl, ok := lf.(*ssa.Call)
+				if !ok || core.CalleeName(cl.Common()) != "builtin.len" {
+					exact = false
+					continue
+				}
+				k := "builtin.len(" + core.Path(cl.Common().Args[0]) + ")"
+				if want[k] == 0 {
+					exact = false
+				}
+				want[k]--
+			}
+			if !exact {
+				return []optAlt{{seq: []string{"?a list whose length is not the sum of the lengths of what is copied into it"}}}
+			}
+		}
 		// offset "0" first; then offsets equal to len(<first source>)
 		sort.SliceStable(cps, func(i, j int) bool { return cps[i].off == "0" && cps[j].off != "0" })
 		var seq []string
